@@ -45,6 +45,34 @@ theorem frame_seq (w : World) (o o' : Owner) (fs : List (Mail.Store → Mail.Sto
   | nil => rfl
   | cons f rest ih => simp only [List.foldl_cons]; rw [ih, update_frame w o o' f h]
 
+/-- C05.4  whatever happens on a connection — logins accepted and refused, second logins, selections of every path, CLOSE,
+assignments and un-assignments in between — the mailbox that selected-state commands act on was selected by the identity
+the connection holds: its own store, or a role store assigned to that identity at the moment of the SELECT. -/
+theorem selection_belongs_to_identity (d : Dir) (es : List CEv) : ConnOK (crun true (Conn.fresh d) es) :=
+  crun_ok _ es (by simp [ConnOK, Conn.fresh])
+
+/-- …which fails when a second LOGIN is accepted and keeps the selection (the code before the repair): user 1, assigned to
+role 7, selects it; user 2, assigned to nothing, logs in on the same connection and holds the role mailbox. -/
+def secondLoginWitness : Conn :=
+  crun false (Conn.fresh ⟨fun _ => some 7, fun u r => u = 1 && r = 7⟩)
+    [.login 1 true, .select (b!"Roles/s@x/INBOX"), .login 2 true]
+
+theorem second_login_refuted : ¬ ConnOK secondLoginWitness := by
+  intro h
+  have hu : secondLoginWitness.uid = some 2 := by decide
+  obtain ⟨m, d, hs, hd⟩ : ∃ m d, secondLoginWitness.sel = some (.role 7, m, d) ∧ d.assigned 2 7 = false :=
+    ⟨_, _, rfl, rfl⟩
+  unfold ConnOK at h
+  rw [hs] at h
+  obtain ⟨u, hu', hor⟩ := h
+  rw [hu] at hu'
+  cases hu'
+  rcases hor with h1 | ⟨r, h1, h2⟩
+  · cases h1
+  · cases h1
+    rw [hd] at h2
+    cases h2
+
 -- non-vacuity: a malformed and a foreign role path select nothing; an assigned one selects the role store
 example : selectTarget ⟨fun a => if a = b!"sales@x" then some 7 else none, fun u r => u = 1 && r = 7⟩ 1 (b!"Roles/sales@x/INBOX")
     = some (.role 7, b!"INBOX") := by decide
